@@ -45,8 +45,14 @@ def pairs(layer):
   if n in ("QSimpleRNN", "QLSTM", "QGRU"):
     return list(zip(layer.get_quantizers()[:-1], layer.get_weights()))            # the last one is the state quantizer
   if n == "QBidirectional":
-    f, b = layer.forward_layer, layer.backward_layer
-    return list(zip(list(f.get_quantizers()[:-1]) + list(b.get_quantizers()[:-1]), layer.get_weights()))
+    # per direction: kernel, recurrent and - only when the direction has a bias - bias (by weight NAME, not by count)
+    out = []
+    for d in (layer.forward_layer, layer.backward_layer):
+      role = {"kernel": 0, "recurrent_kernel": 1, "bias": 2}
+      qs = d.get_quantizers()
+      for v, w in zip(d.weights, d.get_weights()):
+        out.append((qs[role[v.name.split("/")[-1].split(":")[0]]], w))
+    return out
   if n == "QBatchNormalization":
     qs = [q for q, used in zip(layer.get_quantizers(), [layer.scale, layer.center, True, True]) if used]
     return list(zip(qs, layer.get_weights()))
